@@ -48,21 +48,55 @@ theorem takes_leaves {s s' : St} {u : Tid} (hs : step s u (.run 0) = some s') (h
 theorem prog_of_waiting {s : St} {u : Tid} (hc : 0 < s.count) (hw : waiting (s.pc u) = true) : prog s u = true := by
   cases hp : s.pc u <;> simp [hp, waiting] at hw <;> simp [prog, hp, step, hc, done]
 
+/-- **Liveness**, general form: on every weakly fair run, a thread that is inside wait / tryWait / wait(timeout) returns
+    if the count is positive at every later moment at which it is still inside that call (other waiters may take
+    the count down to zero in between — what matters is what this waiter finds when it looks). -/
+theorem waiter_eventually_returns' (r : Run St Op step) (hwf : WeakFair r prog) (n : Nat) (u : Tid)
+    (hw : waiting ((r.st n).pc u) = true)
+    (hpos : ∀ m, n ≤ m → (r.st m).pc u = (r.st n).pc u → 0 < (r.st m).count) :
+    ∃ m, n ≤ m ∧ (r.st m).pc u = .idle ∧
+      ((r.st m).ret u = some (.bool true) ∨ ((r.st n).pc u = .wait ∧ (r.st m).ret u = some (.bool false))) := by
+  obtain ⟨m, hm, hP, hN⟩ := wf_leaves r hwf (fun s => s.pc u = (r.st n).pc u) u n rfl
+    (fun m hm hP => prog_of_waiting (hpos m hm hP) (by rw [hP]; exact hw))
+    (fun m hm hP ht => by
+      have hok := r.ok m
+      rw [ht.1, ht.2] at hok
+      exact takes_leaves hok (hpos m hm hP) _ hw hP)
+  rcases waiting_succ (r.ok m) (hpos m hm hP) _ hw hP with h | h
+  · exact absurd h hN
+  · exact ⟨m + 1, by omega, h.1, h.2⟩
+
 /-- **Liveness**: on every weakly fair run, a thread that is inside wait / tryWait / wait(timeout) at a moment from
     which the count stays positive does not stay blocked: it returns, and it returns true unless an untimed `wait`
     is interrupted by EINTR. -/
 theorem waiter_eventually_returns (r : Run St Op step) (hwf : WeakFair r prog) (n : Nat)
     (hpos : ∀ m, n ≤ m → 0 < (r.st m).count) (u : Tid) (hw : waiting ((r.st n).pc u) = true) :
     ∃ m, n ≤ m ∧ (r.st m).pc u = .idle ∧
+      ((r.st m).ret u = some (.bool true) ∨ ((r.st n).pc u = .wait ∧ (r.st m).ret u = some (.bool false))) :=
+  waiter_eventually_returns' r hwf n u hw (fun m hm _ => hpos m hm)
+
+theorem reach_run {c now e : Nat} (r : Run St Op step) (h0 : Reach c now e (r.st 0)) : ∀ k, Reach c now e (r.st k)
+  | 0 => h0
+  | k + 1 => .step (reach_run r h0 k) (r.ok k)
+
+/-- **Liveness, "enough signals arrive"**: run from a reachable state, weakly fair.  `u` is inside wait / tryWait /
+    wait(timeout) at `n`.  If at every later moment at which `u` is still inside that call the signals that have arrived
+    since `n` plus the count at `n` exceed the successful waits served since `n`
+    (`succ m − succ n < count n + (posts m − posts n)`, written without subtraction), then `u` returns (true, unless an
+    untimed wait is interrupted by EINTR).  By conservation that surplus IS the count `u` finds. -/
+theorem waiter_returns_if_enough_signals {c now e : Nat} (r : Run St Op step) (h0 : Reach c now e (r.st 0))
+    (hwf : WeakFair r prog) (n : Nat) (u : Tid) (hw : waiting ((r.st n).pc u) = true)
+    (henough : ∀ m, n ≤ m → (r.st m).pc u = (r.st n).pc u →
+      (r.st m).succ + (r.st n).posts < (r.st n).count + (r.st m).posts + (r.st n).succ) :
+    ∃ m, n ≤ m ∧ (r.st m).pc u = .idle ∧
       ((r.st m).ret u = some (.bool true) ∨ ((r.st n).pc u = .wait ∧ (r.st m).ret u = some (.bool false))) := by
-  obtain ⟨m, hm, hP, hN⟩ := wf_leaves r hwf (fun s => s.pc u = (r.st n).pc u) u n rfl
-    (fun m hm hP => prog_of_waiting (hpos m hm) (by rw [hP]; exact hw))
-    (fun m hm hP ht => by
-      have hok := r.ok m
-      rw [ht.1, ht.2] at hok
-      exact takes_leaves hok (hpos m hm) _ hw hP)
-  rcases waiting_succ (r.ok m) (hpos m hm) _ hw hP with h | h
-  · exact absurd h hN
-  · exact ⟨m + 1, by omega, h.1, h.2⟩
+  apply waiter_eventually_returns' r hwf n u hw
+  intro m hm hP
+  have h1 := (inv_reach (reach_run r h0 m)).cons
+  have h2 := (inv_reach (reach_run r h0 n)).cons
+  have e1 := init0_reach (reach_run r h0 m)
+  have e2 := init0_reach (reach_run r h0 n)
+  have := henough m hm hP
+  omega
 
 end Nstd.Sync.Sem
